@@ -579,3 +579,41 @@ package nbio
 //@   safety index slice nil div assert panic make
 //@   requires ConnOK(c) && !holds(c.mux) && !c.gTok
 //@   assigns everything
+
+// ---- UDP demultiplexing key (C02): the key is the address bytes, the port (mod 2^16) and, for IPv6, the zone: equal keys
+// mean equal remote endpoints within an address family
+//@ func getUDPNetAddrKey
+//@   props C02
+//@   safety index slice nil div assert panic make
+//@   requires typednil: (istype(sa, "*syscall.SockaddrInet4") ==> as(sa, "*syscall.SockaddrInet4") != nil) && (istype(sa, "*syscall.SockaddrInet6") ==> as(sa, "*syscall.SockaddrInet6") != nil)
+//@   ensures v4: istype(sa, "*syscall.SockaddrInet4") && as(sa, "*syscall.SockaddrInet4").Port >= 0 ==> result[16] == as(sa, "*syscall.SockaddrInet4").Port % 256 && result[17] == (as(sa, "*syscall.SockaddrInet4").Port / 256) % 256 && result[0] == as(sa, "*syscall.SockaddrInet4").Addr[0] && result[1] == as(sa, "*syscall.SockaddrInet4").Addr[1] && result[2] == as(sa, "*syscall.SockaddrInet4").Addr[2] && result[3] == as(sa, "*syscall.SockaddrInet4").Addr[3]   // prop C02
+//@   ensures v6: istype(sa, "*syscall.SockaddrInet6") && as(sa, "*syscall.SockaddrInet6").Port >= 0 ==> result[16] == as(sa, "*syscall.SockaddrInet6").Port % 256 && result[17] == (as(sa, "*syscall.SockaddrInet6").Port / 256) % 256 && (forall k int :: 0 <= k && k < 16 ==> result[k] == as(sa, "*syscall.SockaddrInet6").Addr[k]) && result[18] == as(sa, "*syscall.SockaddrInet6").ZoneId % 256 && result[19] == (as(sa, "*syscall.SockaddrInet6").ZoneId / 256) % 256 && result[20] == (as(sa, "*syscall.SockaddrInet6").ZoneId / 65536) % 256 && result[21] == (as(sa, "*syscall.SockaddrInet6").ZoneId / 16777216) % 256   // prop C02
+//@   note injectivity, as a closed lemma: two ports in 0..65535 with the same two key bytes are the same port (the address and zone bytes are copied verbatim)
+//@   at entry assert inj: forall a int, b int :: 0 <= a && a <= 65535 && 0 <= b && b <= 65535 && a % 256 == b % 256 && (a / 256) % 256 == (b / 256) % 256 ==> a == b   // prop C02
+//@   assigns allocates
+
+// ---- one read call (C02): what the kernel hands over is what the caller gets, once: the count returned is the kernel's, the
+// bytes sit at the front of the caller's buffer; a closed connection reads nothing
+//@ func (*Conn).readStream
+//@   props C02
+//@   safety index slice nil div assert panic make
+//@   ensures same: result0 == c && (result2 == nil ==> 0 <= result1 && result1 <= len(b))                     // prop C02
+//@   ensures count: kRecv[c.fd] == old(kRecv[c.fd]) + ite(result1 > 0, result1, 0)                          // prop C02
+//@   assigns kRecv[c.fd], elems(b)
+//@ func (*Conn).readUDP
+//@   trusted
+//@   havoc
+//@   note UDP receive and demultiplexing by remote address (getConn keyed by getUDPNetAddrKey, proved above): not under contract
+//@   ensures holds(c.mux) == old(holds(c.mux)) && c.closed == old(c.closed)
+//@ func (*Conn).doRead
+//@   inline
+//@ func (*Conn).ReadAndGetConn
+//@   props C02
+//@   safety index slice nil div assert panic make lock
+//@   requires !holds(c.mux) && pdata != nil
+//@   note stated for stream sockets; the UDP branch (readUDP) is a trusted stub
+//@   requires streamtype: c.typ == ConnTypeTCP || c.typ == ConnTypeUnix
+//@   ensures unlocked: !holds(c.mux)
+//@   ensures got: !c.gClosedAtLock ==> result0 == c && (result2 == nil ==> 0 <= result1 && result1 <= old(len(*pdata))) && kRecv[c.fd] == old(kRecv[c.fd]) + ite(result1 > 0, result1, 0)   // prop C02
+//@   ensures closedret: c.gClosedAtLock ==> result1 == 0 && result2 == net.ErrClosed && kRecv[c.fd] == old(kRecv[c.fd])   // prop C02 C03
+//@   assigns everything
